@@ -5,6 +5,7 @@ package main
 // events emitted for it so far.
 
 import (
+	"reflect"
 	datastore "github.com/ipfs/go-datastore"
 	"berty.tech/go-orbit-db/stores/basestore"
 	"context"
@@ -74,7 +75,7 @@ func (w *World) watchStoreEvents(p int) {
 	w.evc[p] = c
 	sub, err := w.peers[p].odb.EventBus().Subscribe([]interface{}{
 		new(stores.EventWrite), new(stores.EventReplicated), new(stores.EventReplicate),
-		new(stores.EventReplicateProgress), new(stores.EventLoad), new(stores.EventReady),
+		new(stores.EventReplicateProgress), new(stores.EventLoad), new(stores.EventReady), new(stores.EventNewPeer),
 	})
 	if err != nil {
 		panic(err)
@@ -95,6 +96,14 @@ func (w *World) watchStoreEvents(p int) {
 				c.add(x.Address.String(), "load")
 			case stores.EventReady:
 				c.add(x.Address.String(), "ready")
+			case stores.EventNewPeer:
+				// every store of the instance emits on the shared bus: an event that does not say which
+				// database it is about cannot be told from another database's (looked up by reflection:
+				// the harness must build whether or not the field exists)
+				f := reflect.ValueOf(x).FieldByName("Address")
+				if !f.IsValid() || f.IsNil() {
+					c.add("noaddr", "newpeer")
+				}
 			}
 		}
 	}()
@@ -299,6 +308,11 @@ func (w *World) observeDB(p, k int) {
 		ev = c.get(s.Address().String())
 	}
 	w.obsSuffix = fmt.Sprintf(" db=%d events=%s", k, ev)
+	if c, ok := w.evc[p]; ok {
+		if o := c.get("noaddr"); o != "" && o != "-" {
+			w.obsSuffix += " orphan=" + o
+		}
+	}
 	w.observe(p)
 	w.obsSuffix = ""
 }
